@@ -289,6 +289,31 @@ func runC11(p *an.Prog, r *an.Run, tier string) {
 				}
 			}
 		}
+		// the expiry scan runs on every accepted keep-alive (also one that reports no peers): from the entry of the
+		// critical region no successful return is reachable without passing the scan over the tracked set
+		if region != nil {
+			isScan := func(in ssa.Instruction) bool {
+				for _, rg := range ps.ranges {
+					if in == ssa.Instruction(rg) {
+						return true
+					}
+				}
+				return false
+			}
+			okRet := func(in ssa.Instruction) bool {
+				ret, ok := in.(*ssa.Return)
+				if !ok {
+					return false
+				}
+				cls, _ := returnClass(ret)
+				return cls != "nonnil"
+			}
+			if len(ps.ranges) == 0 {
+				bad = append(bad, "the tracked peer set is never scanned for expired entries")
+			} else if in := an.PathAvoiding(region, nil, isScan, okRet, nil); in != nil {
+				bad = append(bad, "a keep-alive can be accepted (return at "+p.Pos(in.Pos())+") without the expiry scan over the tracked peers having run: peers that are no longer reported would never expire")
+			}
+		}
 		r.Check(len(bad) == 0, "evict-predicate", kind, m.Pos(), "evict iff timestamp <= now - ExpireInterval; evicted <=> reported", "%s", strings.Join(dedup(bad), "; "))
 
 		// ---- persisted
@@ -373,6 +398,10 @@ func runC11(p *an.Prog, r *an.Run, tier string) {
 		}
 		if !da.HasFieldNamed("Node", "URI") {
 			bad = append(bad, "ActivePeers does not carry the peers' URIs")
+		}
+		// the active set is read after this keep-alive was applied
+		if reach := an.ReachAvoiding(upd, an.EdgeSet(an.ErrEdges(updPeers[0]).Succ)); reach[nodePeers[0].Block()] {
+			bad = append(bad, "the active peer set is read before UpdateNodePeers has been applied: a peer declared invalid by this keep-alive is still reported (and billed) as active, a newly reported one is missing")
 		}
 		// the response returned is the one filled in
 	}
